@@ -16,6 +16,27 @@ def parseEv (t : String) : Option Ev :=
   | 'A' :: r => some (.arrive (decBytes (String.ofList r)))
   | _ => none
 
+/-- Event tokens of a run under a wake-driven executor: `W` = poll the retained receive only if its waker has fired
+    since it was last polled (a receive that is not in progress is started and polled at once). The waker contract as the
+    scripted transport implements it: a poll that ends pending has left the task's waker with the transport (`armed`);
+    the next arrival or close fires it (`flag`). Returns the events that are actually executed (`W` = a poll or nothing). -/
+def resolveW (C : Consts) (sizes : Nat → Nat) : List String → St → Net → (flag armed retained : Bool) → List Ev
+  | [], _, _, _, _, _ => []
+  | t :: ts, s, e, flag, armed, retained =>
+    let pollNow (keep : Bool) : List Ev :=
+      let r := Rx.poll C sizes s e
+      let pend := r.1 == Out.pending
+      .poll :: resolveW C sizes ts r.2.1 r.2.2 false (armed || pend) (keep && pend)
+    match t.toList with
+    | ['C'] => .close :: resolveW C sizes ts s { e with closed := true } (flag || armed) false retained
+    | 'A' :: r =>
+      let b := decBytes (String.ofList r)
+      .arrive b :: resolveW C sizes ts s { e with avail := e.avail ++ b } (flag || armed) false retained
+    | ['P'] => pollNow false
+    | ['Q'] => pollNow true
+    | ['W'] => if !retained || flag then pollNow true else resolveW C sizes ts s e flag armed retained
+    | _ => resolveW C sizes ts s e flag armed retained
+
 def tokOfOut (tbl : List (List Byte × String)) : Out → String
   | .pending => "pend"
   | .err .eof => "eof"
@@ -66,7 +87,7 @@ def handle (bounds : Bool) (ts : List String) : String :=
     | _ => none
   let frames := tbl.map (·.1)
   let sizes := ss.map String.toNat!
-  match es.mapM parseEv with
+  match (if es.contains "W" then some (resolveW consts (sizesFn sizes) es (init consts) net0 true false false) else es.mapM parseEv) with
   | none => "bad-line"
   | some evs =>
     let outs := run consts (sizesFn sizes) evs (init consts) net0
